@@ -175,7 +175,7 @@ Fixpoint split_candidates (pre s : string) : list (string * string) :=
   match s with
   | EmptyString => []
   | String c r =>
-      (if Ascii.eqb c "x"%char then [(pre, r)] else []) ++ split_candidates (pre ++ String c EmptyString) r
+      List.app (if Ascii.eqb c "x"%char then [(pre, r)] else []) (split_candidates (pre ++ String c EmptyString) r)
   end.
 
 Definition axis_order (comps : list string) : bool :=
@@ -241,7 +241,7 @@ Definition shape_ok (fn : string) (r : route) : bool :=
 
 (* the C parameters mentioned by a call site, receiver first, are in C declaration order *)
 Definition callsite_in_order (e : entry) (c : callsite) : bool :=
-  let ps := (match c.(cs_recv) with Some r => route_params r | None => [] end) ++ concat (map route_params c.(cs_args)) in
+  let ps := List.app (match c.(cs_recv) with Some r => route_params r | None => [] end) (concat (map route_params c.(cs_args))) in
   match all_some (map (fun p => index_of p (params_of e)) ps) with
   | Some idx => increasing idx
   | None => false
@@ -354,7 +354,7 @@ Definition wrapper_ok_with (handles : list (string * string)) (structs : list (s
 (* ------------------------------------------------- size / alloc families *)
 
 (* For the opaque handle C type hc with C++ type ty: there are entries
-   manifold_<x>_size (KSize ty), manifold_alloc_<x> (KAlloc ty ty, returning hc*),
+   manifold_<x>_size (KSize ty), manifold_alloc_<x> (KAlloc ty ty, returning a pointer to hc),
    manifold_destruct_<x> (KDestruct ty), manifold_delete_<x> (KDelete ty) for
    one and the same <x>. *)
 Definition find_entry (tbl : list entry) (n : string) : option entry :=
@@ -448,8 +448,8 @@ Definition enum_to_ok (cenums xenums : list (string * list string)) (t : string 
 (* where both directions exist they are inverse to each other *)
 Definition enum_roundtrip_ok (efrom eto : list (string * string * list (string * string))) : bool :=
   forallb (fun f => match f with (c, x, tf) =>
-     forallb (fun t => match t with (c', x', tt) =>
-        if andb (String.eqb c c') (String.eqb x x') then andb (compose_id tf tt) (compose_id tt tf) else true end) eto end) efrom.
+     forallb (fun t => match t with (c', x', tb) =>
+        if andb (String.eqb c c') (String.eqb x x') then andb (compose_id tf tb) (compose_id tb tf) else true end) eto end) efrom.
 
 (* every C enum of types.h is converted in at least one direction *)
 Definition enums_covered (cenums : list (string * list string)) (efrom eto : list (string * string * list (string * string))) : bool :=
